@@ -107,6 +107,13 @@ def gen_cases(rng, tier):
                 for d in ([rng.choice([1, 7, 4096, rng.randint(1, 4096)])] if tier == "quick" else [1, 7, 4096, rng.randint(1, 4096)]):
                     yield {"id": f"k{i}-{j}-{d}", "lines": base + ["save", f"skew {j} {d}", "reload lazy=0", "validate"],
                            "meta": {"prog": _c03.jsonable(p), "kind": "skew", "j": j, "d": d}}
+    # a thread-local data section among a PT_LOAD's members, with / without a nested PT_TLS (gen_program never sets SHF_TLS):
+    # validate() stays silent on the saved and on the reloaded object
+    for i in range(8 if tier == "quick" else 80):
+        cls, enc = CFGS[i % 4]
+        p = gen_tls_program(rng, cls, enc, tls_seg=(i // 4) % 2 == 0)
+        yield {"id": f"tls{i}", "lines": to_lines(p) + ["save", "validate", "reload lazy=0", "validate"],
+               "meta": {"prog": _c03.jsonable(p), "kind": "silent"}}
 
 
 def oracle(case, out):
